@@ -100,7 +100,7 @@ func Abs(v any) any {
 		return map[string]any{"k": "bool", "v": x}
 	case string:
 		m := map[string]any{"k": "str", "v": x}
-		if rs := []rune(x); len(rs) <= 12 { // characters as a sequence: TLA+ cannot look inside strings
+		if rs := []rune(x); len(rs) <= 40 { // characters as a sequence: TLA+ cannot look inside strings
 			cs := make([]string, len(rs))
 			for i, r := range rs {
 				cs[i] = string(r)
